@@ -25,23 +25,25 @@ Qed.
 
 Section Exec.
 Variable c : config.
-(* a batch that really is run: not the empty batch of -I *)
-Definition runs (b : list arg) : Prop := c_replace c = false \/ b <> [].
+(* a batch that really is run: not the empty batch of -I, and (with -I) one whose substituted command line passes the system limits *)
+Definition runs (b : list arg) : Prop := c_replace c = false \/ (b <> [] /\ subst_fits c b = true).
 
 Lemma runs_cond b : runs b -> c_replace c && (match b with [] => true | _ => false end) = false.
-Proof. intros [->|H]; [reflexivity|]. destruct b; [congruence|apply andb_false_r]. Qed.
+Proof. intros [->|[H _]]; [reflexivity|]. destruct b; [congruence|apply andb_false_r]. Qed.
+Lemma runs_cond2 b : runs b -> c_replace c && negb (subst_fits c b) = false.
+Proof. intros [->|[_ H]]; [reflexivity|]. rewrite H. apply andb_false_r. Qed.
 
 Lemma exec_nonfatal st b o os : runs b -> outs st = o :: os -> nonfatal o = true ->
   exec c st b = inl {| res := XArgs.combine (res st) (cres_of o); outs := os; log := log st ++ [b] |}.
 Proof.
-  intros Hb E H. unfold exec. rewrite (runs_cond b Hb). rewrite E. cbn [next_out tl].
+  intros Hb E H. unfold exec. rewrite (runs_cond b Hb), (runs_cond2 b Hb). rewrite E. cbn [next_out tl].
   unfold nonfatal, cres_of in *. destruct (classify o); [reflexivity|discriminate].
 Qed.
 
 Lemma exec_fatal st b o os : runs b -> outs st = o :: os -> nonfatal o = false ->
   exec c st b = inr (fatal_code o, log st ++ [b]).
 Proof.
-  intros Hb E H. unfold exec. rewrite (runs_cond b Hb). rewrite E. cbn [next_out].
+  intros Hb E H. unfold exec. rewrite (runs_cond b Hb), (runs_cond2 b Hb). rewrite E. cbn [next_out].
   unfold nonfatal, fatal_code in *. destruct (classify o); [discriminate|reflexivity].
 Qed.
 
@@ -178,22 +180,29 @@ Proof.
       rewrite charge_app, Hs. unfold accf. now rewrite Et.
 Qed.
 
-(* either -I is not in force, or there is input (then no batch is empty) *)
+(* either -I is not in force, or there is input (then no batch is empty) and every line, once substituted, passes the system limits *)
+Definition line_fits (a : arg) : Prop := fits_system c (c_subst c (alen a)) = true.
 Definition really_runs (args : list arg) : Prop :=
-  c_replace c = false \/ (args <> [] /\ Forall noninit args).
+  c_replace c = false \/ (args <> [] /\ Forall noninit args /\ Forall line_fits args).
 
 Lemma greedy_lim_ne ok bs : greedy_lim ok bs -> Forall (fun b => b <> []) bs.
 Proof. induction bs as [|b bs IH]; intros H; [constructor|]. destruct H as (_ & Hne & _ & Hg). constructor; auto. Qed.
 
 Lemma batches_run args : really_runs args -> Forall (runs c) (match P args with Ran bs | TooLarge bs => bs end).
 Proof.
-  intros [Hr|[Hne Hn]].
+  intros [Hr|(Hne & Hn & Hf)].
   - apply Forall_forall. intros b _. now left.
-  - pose proof (batches_spec args Hn) as H. destruct (P args) as [bs|bs].
-    + destruct H as (_ & H & _). specialize (H Hne). apply greedy_lim_ne in H.
-      eapply Forall_impl; [|exact H]. intros b Hb. now right.
-    + destruct H as (pre & a & post & _ & H & _). apply greedy_lim_ne in H.
-      eapply Forall_impl; [|exact H]. intros b Hb. now right.
+  - pose proof (batches_spec args Hn) as H.
+    pose proof (process_incl arg (list limiter) tmpl accf (fatalf c) (c_r c) args tmpl [] false [] line_fits
+                  ltac:(constructor) ltac:(constructor) Hf) as Hl.
+    fold (P args) in Hl.
+    assert (Hrun : forall bs, Forall (fun b => b <> []) bs -> Forall (Forall line_fits) bs -> Forall (runs c) bs).
+    { intros bs H1 H2. induction bs as [|b bs IH]; [constructor|]. inversion H1; inversion H2; subst. constructor; [|now apply IH].
+      right. split; [assumption|]. destruct b as [|a b]; [congruence|]. cbn [subst_fits].
+      match goal with Hb : Forall line_fits (a :: b) |- _ => now inversion Hb end. }
+    destruct (P args) as [bs|bs].
+    + destruct H as (_ & H & _). specialize (H Hne). apply greedy_lim_ne in H. now apply Hrun.
+    + destruct H as (pre & a & post & _ & H & _). apply greedy_lim_ne in H. now apply Hrun.
 Qed.
 
 Definition batches_of (o : outcome arg) : list (list arg) := match o with Ran bs | TooLarge bs => bs end.
@@ -240,19 +249,15 @@ Lemma base_too_large c args ie os : charge_init (limiters0 c) (c_init c) = None 
   xargs_run c args ie os = (1, []).
 Proof. intros H. unfold xargs_run. now rewrite H. Qed.
 
-Lemma exec_keeps_nonfatal c st b st' : forallb nonfatal (outs st) = true -> exec c st b = inl st' ->
-  forallb nonfatal (outs st') = true.
+Lemma exec_nonfatal_cases c st b : forallb nonfatal (outs st) = true ->
+  (exists st', exec c st b = inl st' /\ forallb nonfatal (outs st') = true) \/ (exists l, exec c st b = inr (1, l)).
 Proof.
-  unfold exec. intros H. destruct (c_replace c && _); [now intros [= <-]|].
-  destruct (classify _); [|discriminate]. intros [= <-]. cbn [outs].
-  destruct (outs st); [reflexivity|]. cbn in H. now apply andb_true_iff in H as [_ H].
-Qed.
-
-Lemma exec_nonfatal_inl c st b : forallb nonfatal (outs st) = true -> exists st', exec c st b = inl st'.
-Proof.
-  unfold exec. intros H. destruct (c_replace c && _); [eauto|].
-  destruct (outs st) as [|o os]; cbn [next_out]; [cbn; eauto|].
-  cbn in H. apply andb_true_iff in H as [H _]. unfold nonfatal in H. destruct (classify o); [eauto|discriminate].
+  unfold exec. intros H. destruct (c_replace c && _); [left; eauto|].
+  destruct (c_replace c && negb _); [right; eauto|]. left.
+  destruct (outs st) as [|o os] eqn:E; cbn [next_out tl].
+  - cbn. eexists. split; [reflexivity|]. reflexivity.
+  - cbn in H. apply andb_true_iff in H as [Ho Hos]. unfold nonfatal in Ho. destruct (classify o); [|discriminate].
+    eexists. split; [reflexivity|exact Hos].
 Qed.
 
 Theorem input_error_status c tmpl : forall args ls cur p st, forallb nonfatal (outs st) = true ->
@@ -262,8 +267,8 @@ Proof.
   cbn [process_x]. destruct (try_arg ls a); [now apply IH|].
   destruct (fatalf c ls a); [reflexivity|].
   destruct p.
-  - destruct (exec_nonfatal_inl c st cur H) as [st' E]. rewrite E.
-    destruct (try_arg tmpl a); [|reflexivity]. apply IH. eapply exec_keeps_nonfatal; eauto.
+  - destruct (exec_nonfatal_cases c st cur H) as [(st' & E & H')|(l & E)]; rewrite E; [|reflexivity].
+    destruct (try_arg tmpl a); [|reflexivity]. now apply IH.
   - destruct (try_arg tmpl a); [|reflexivity]. now apply IH.
 Qed.
 
